@@ -90,7 +90,7 @@ def nontrivial(case, impl_out):
     return bool(case.meta.get("conf"))
 
 
-def custom(run, tier):
+def custom(run, tier, only_passthrough=False):
     """(1) Pass-through: the callee must receive EXACTLY the positional and keyword arguments the caller passed.  A plain
     function cannot tell `f(a, 2)` from `f(a, y=2)`; a callee with a `(*args, **kwargs)` body under a `functools.wraps`
     signature can, so that is what is decorated here, for every signature shape x call style of a small family.
@@ -193,6 +193,8 @@ def custom(run, tier):
     run.dist["passthrough"] += n
     run.coverage["passthrough_calls"] = n
 
+    if only_passthrough:
+        return
     # (2) provider histories
     from checks import c12
 
